@@ -77,6 +77,15 @@ def lemma_vcs(reg, lm):
         facts = []
         eng.vcs = []
         for h in hint_srcs:
+            hn = sx.parse_expr(h)
+            import ast as _ast
+            if isinstance(hn, _ast.Call) and isinstance(hn.func, _ast.Name) and hn.func.id == lm.name:
+                # a call of the lemma inside its own proof is the induction hypothesis: only at the current value
+                # of the induction variable (the statement is being proved at that value + 1)
+                pos = list(lm.params).index(lm.induction) if lm.induction else -1
+                ok = pos >= 0 and isinstance(hn.args[pos], _ast.Name) and hn.args[pos].id == lm.induction
+                if not ok:
+                    raise sx.ContractError("circular lemma call in the proof of %s" % lm.name)
             facts.append(sx.to_bool(eng.evc(h, hst)))
             hst.pc.append(facts[-1])
         pre = eng.vcs
